@@ -1,6 +1,6 @@
 (* C18 - generated code is reproducible.  Theorems only. *)
 From Coq Require Import Lia Permutation.
-From Ructe Require Import Nom Utf8 Emit Compile Md5 Static Tables Build MapProofs StaticProofs BuildProofs.
+From Ructe Require Import Nom Utf8 Emit Compile Md5 Static Tables Build MapProofs StaticProofs BuildProofs TreeMirror.
 Local Open Scope list_scope.
 
 Section C18.
@@ -26,6 +26,27 @@ Section C18.
     cbv zeta in E1, E2. unfold handle_template in E1, E2. rewrite C in E1, E2.
     eexists. eexists. eexists. split; [exact E1|]. split; [exact E2|]. cbn. repeat split; try reflexivity.
     now rewrite <- !app_assoc.
+  Qed.
+
+  (* whole trees: the same template file (name and bytes) placed anywhere (below any chain of
+     directories ds / ds') in any two trees, walked from any source locations into any output
+     directories starting from any earlier state of the run (w, f / w', f': other calls made before,
+     the same call made before), is planned with the same code, in the mirrored directory each time *)
+  Theorem same_code_in_any_tree :
+    forall stem s content code, In s template_suffixes -> utf8_valid (stem ++ s) = true ->
+    let name := stem ++ b "_" ++ skipn 4 s in
+    compile name content = Accepted code ->
+    forall ds ds' fuel fuel' es es' w w' f f' indir indir' outdir outdir' w1 f1 w1' f1',
+    at_path es ds (stem ++ s) content -> at_path es' ds' (stem ++ s) content ->
+    handle_entries uni_esc compile fuel w f indir outdir es = BOk _ (w1, f1) ->
+    handle_entries uni_esc compile fuel' w' f' indir' outdir' es' = BOk _ (w1', f1') ->
+    In (pjoin (dir_join outdir ds) (b "template_" ++ name ++ b ".rs"), code) (plan w1) /\
+    In (pjoin (dir_join outdir' ds') (b "template_" ++ name ++ b ".rs"), code) (plan w1').
+  Proof.
+    intros stem s content code I V name C ds ds' fuel fuel' es es' w w' f f' indir indir' outdir outdir' w1 f1 w1' f1' A A' H H'.
+    split.
+    - exact (proj1 (tree_mirror_lemma uni_esc compile stem s content code I V C ds fuel es w f indir outdir w1 f1 A H)).
+    - exact (proj1 (tree_mirror_lemma uni_esc compile stem s content code I V C ds' fuel' es' w' f' indir' outdir' w1' f1' A' H')).
   Qed.
 
   (* the set of generated files and the set of declaration blocks of a directory depend only on
@@ -61,5 +82,6 @@ Section C18.
 End C18.
 
 Redirect "assumptions/C18.template_code_function_of_bytes_and_name" Print Assumptions template_code_function_of_bytes_and_name.
+Redirect "assumptions/C18.same_code_in_any_tree" Print Assumptions same_code_in_any_tree.
 Redirect "assumptions/C18.module_decls_permutation_invariant" Print Assumptions module_decls_permutation_invariant.
 Redirect "assumptions/C18.statics_order_permutation_invariant" Print Assumptions statics_order_permutation_invariant.
